@@ -814,6 +814,9 @@ def rule_r8(ctx):
                  "of answering NNG_EAGAIN", floor=2)
     prog = ctx.prog
     n = 0
+    st = prog.need("nni_aio_start", "core/aio.c")
+    # nni_aio_start tests a_use_expire before it looks at the timeout at all
+    use_expire_wins = any(atom.get("k") == "mem" and atom.get("f") == "a_use_expire" for _, _, atom, _ in G.edge_facts(st))
     for f in prog.functions:
         if f.cfg_failed or f.file.endswith("_test.c") or "testing/" in f.file or f.file.endswith("src/nng.c") or f.name in (
                 "nni_aio_set_timeout", "nni_aio_set_expire", "nng_aio_set_timeout", "nng_aio_set_expire", "nni_aio_init"):
@@ -847,6 +850,11 @@ def rule_r8(ctx):
             n += 1
             excl = {}
             for bid, k, atom, val in facts:
+                # an aio in absolute-expiry mode is not a non-blocking call, whatever its (unused) timeout says:
+                # nni_aio_start looks at the timeout only when a_use_expire is clear
+                if val and atom.get("k") == "mem" and atom.get("f") == "a_use_expire" and use_expire_wins:
+                    excl[bid] = k
+                    continue
                 if atom.get("k") != "bin" or atom.get("op") not in _CMP:
                     continue
                 for lhs, rhs, op in ((atom["lhs"], atom["rhs"], atom["op"]),
